@@ -16,6 +16,9 @@ Ops (one observation line each; `~` encodes a space, `-` the empty string):
   load | sum [rank] | csv | krona <rank> | lsum <rank> | cls <rank|-> <p> <q>|none 1
   fa|fs|fm a b c d                (a/b) + - * (c/d) in binary64 (ties fadd/subF/fmul to CPython)
   ident <kf> <kv> <text>          both get_ident implementations
+  sopen / scsv | shuman <r> | skrona <r> | slsum <r> | skreport | sbioboxes
+                                  the writers on ONE shared QueryTaxResult, in the order given (csv_summary and human
+                                  sort the shared per-rank lists in place: modelled)
   kreport | bioboxes | human <rank>   the writers that format numbers (percent text via fmul + '%.2f'/'%.1f',
                                   kreport's int(f_weighted*total_bp)): modelled exactly
   x...                            implementation-only observations (the bioboxes file writer,
@@ -276,12 +279,52 @@ def gen_case(rng, flavour):
             lines.append(f"xlineagecsv - {p} {q}")
     if rng.random() < 0.4:
         lines.append(f"xclsani {rng.choice(['-', '-', str(rk())])} {rng.choice(['9 10', '95 100', '1 2', '99 100', '1 1', '0 1'])}")
-    if flavour == "cli" or rng.random() < 0.04:
+    if flavour in ("cli", "cliall") or rng.random() < 0.04:
+        # the real command line with subsets of the output formats; before each run the same writers, in the order
+        # `tax metagenome` calls them, on one shared in-process object: every file must equal the in-process output
         r = rk() if mode != "std" else rng.choice([0, 1, 5, 6])
-        fm = "csv_summary,krona,lineage_summary" + (",kreport" if mode == "std" else "")
-        lines.append(f"xcli metagenome {r} {fm}")
-        p, q = rng.choice(thr_pool[:7])
-        lines.append(f"xcli genome - {p} {q} csv_summary")
+        if nqueries > 1:
+            allf = ["lineage_summary", "krona", "csv_summary"]
+        else:
+            allf = ["lineage_summary", "krona", "human", "csv_summary"] + (["kreport", "bioboxes"] if mode == "std" else [])
+        if flavour == "cliall":
+            subsets = [[f for j, f in enumerate(allf) if m >> j & 1] for m in range(1, 2 ** len(allf))]
+        else:
+            subsets = [[f for f in allf if rng.random() < 0.5] or [rng.choice(allf)] for _ in range(rng.randint(1, 2))]
+        sop = {"lineage_summary": f"slsum {r}", "krona": f"skrona {r}", "human": f"shuman {r}", "csv_summary": "scsv",
+               "kreport": "skreport", "bioboxes": "sbioboxes"}
+        mop = {"lineage_summary": f"mlsum {r}", "krona": f"mkrona {r}", "csv_summary": "mcsv"}
+        for sub in subsets:
+            if nqueries > 1:
+                lines += [mop[f] for f in allf if f in sub]
+            else:
+                lines.append("sopen")
+                lines += [sop[f] for f in allf if f in sub]
+            shuffled = list(sub)
+            rng.shuffle(shuffled)
+            lines.append(f"xcli metagenome {r} {','.join(shuffled)}")
+        if nqueries == 1:
+            # `tax genome` with several formats on the one classified object; the classification file must be the
+            # in-process classification
+            p, q = rng.choice(thr_pool[:7])
+            gr = rng.choice(["-", str(r)])
+            gf = [f for f in ["csv_summary", "human", "lineage_csv"] + (["krona"] if gr != "-" else []) if rng.random() < 0.6] or ["csv_summary"]
+            if "csv_summary" not in gf:
+                gf.append("csv_summary")
+            rng.shuffle(gf)
+            lines.append(f"cls {gr} {p} {q}")
+            lines.append(f"xcli genome {gr} {p} {q} {','.join(gf)}")
+    # several writers on ONE QueryTaxResult (as one `tax metagenome -F a b c` run does): random order, repeats;
+    # every writer is also run on a fresh object first, and must print the same thing
+    if rng.random() < 0.75:
+        r1 = rk()
+        pool = ["csv", "csv", f"krona {r1}", f"lsum {r1}", f"human {rng.choice([r1, rk()])}", f"human {rk()}"]
+        if mode == "std":
+            pool += ["kreport", "kreport", "bioboxes"]
+        seq = [rng.choice(pool) for _ in range(rng.randint(2, 7))]
+        lines += sorted(set(seq))
+        lines.append("sopen")
+        lines += ["s" + x for x in seq]
     # order independence: permuted gather rows
     if nrows > 1:
         idx = list(range(nrows))
@@ -576,6 +619,9 @@ def _oracle(case, impl):
     order = None
     first_sum = None
     api = {}
+    fresh = {}
+    sess_out = {}
+    last_cls = {}
     for idx, (l, o) in enumerate(zip(case, impl)):
         w = l.split()
         if not w:
@@ -584,7 +630,28 @@ def _oracle(case, impl):
         if o.startswith("gather-mismatch"):
             bad.append((idx, "C19:harness:gather-rows-differ", f"the gather rows given to the model are not the ones gather produced: {o}"))
             continue
+        if op in ("csv", "krona", "lsum", "human", "kreport", "bioboxes") and o.startswith("ok"):
+            fresh[l.strip()] = o
+        if op == "cls" and len(w) == 4:
+            last_cls[(w[1], w[2], w[3])] = o
+        if op == "sopen":
+            sess_out.clear()
+        if op in ("scsv", "skrona", "slsum", "shuman", "skreport", "sbioboxes", "mcsv", "mkrona", "mlsum") and o.startswith("ok"):
+            sess_out[op[1:]] = o
+        if op in ("scsv", "skrona", "slsum", "shuman", "skreport", "sbioboxes"):
+            ref_o = fresh.get(l.strip()[1:])
+            if ref_o is not None and o != ref_o:
+                if o.startswith("ok") and sorted(o.split()) == sorted(ref_o.split()):
+                    bad.append((idx, "C19:writer-order-dependence:row-order",
+                                f"`{l}` on a QueryTaxResult other writers have already used prints the same rows in another order than on a "
+                                f"fresh object (make_full_summary / make_human_summary sort the shared per-rank lists in place)"))
+                else:
+                    bad.append((idx, f"C19:writer-order-dependence:{op[1:]}",
+                                f"`{l}` prints different rows after other writers ran on the same QueryTaxResult: "
+                                f"{len(o.split()) - 1} rows instead of {len(ref_o.split()) - 1}; fresh: {ref_o[:120]} ... shared: {o[:120]}"))
+            continue
         if op == "perm":
+            fresh.clear()
             idx_l = [int(x) for x in w[1:]]
             cur = order if order is not None else list(range(len(P.rows)))
             if len(idx_l) == len(cur):
@@ -783,6 +850,11 @@ def _oracle(case, impl):
                             "writing the bioboxes format for a taxonomy without a `taxpath` column dies with TypeError "
                             "(write_bioboxes joins a row whose taxid / taxpath are None)"))
                 continue
+            if op == "xcli" and w[1] == "genome" and P.mode == "lin" and "lineage_csv" in l and o.startswith("err ValueError:rankavail"):
+                bad.append((idx, "C19:never_rejected:cli-lins-lineage-csv",
+                            f"`{l}`: `tax genome --lins -F lineage_csv` dies (uncaught ValueError 'Desired Rank ... not available') when the "
+                            "query is classified above the lowest LIN position: as_lineage_dict asks the popped lineage for positions it no longer has"))
+                continue
             if op == "xcli" and o.startswith("err ArgumentTypeError") and P.mode == "ictv":
                 bad.append((idx, "C19:never_rejected:cli-ictv-rank-refused",
                             f"`{l[:60]}`: with --ictv the command line refuses (uncaught ArgumentTypeError) every ICTV rank that is not also an NCBI rank name"))
@@ -841,13 +913,22 @@ def _oracle(case, impl):
             if parts.get("rc") != "0":
                 bad.append((idx, "C19:never_rejected:cli", f"`{l}` exited with {parts.get('rc')} on a valid gather result"))
                 continue
-            if order is None:
-                if "csv" in parts and "csv" in api and parts["csv"].split(",") != api["csv"].split()[1:]:
-                    bad.append((idx, "C19:format_independent:cli-csv", "the csv_summary file written by the command line differs from the API table"))
-                for key, opn in (("krona", "krona"), ("lsum", "lsum")):
-                    k2 = opn + w[2]
-                    if key in parts and k2 in api and parts[key].split(",") != api[k2].split()[1:]:
-                        bad.append((idx, f"C19:format_independent:cli-{key}", f"the {key} file written by the command line differs from the API result"))
+            if w[1] == "genome" and "cls" in parts and order is None:
+                ref_c = last_cls.get((w[2], w[3], w[4]))
+                if ref_c is not None and ref_c.startswith("ok ") and parts["cls"].split("|") != ref_c.split()[1:]:
+                    bad.append((idx, "C19:format_independent:cli-classification",
+                                f"`{l}`: the classification file differs from the in-process classification: {parts['cls'][:100]} vs {ref_c[:100]}"))
+            if w[1] == "metagenome":
+                # every file against the same writer run in-process (shared object, same writer order) just before
+                for key in ("csv", "krona", "lsum", "human", "kreport", "bioboxes"):
+                    if key in parts and key in sess_out:
+                        got = [x for x in parts[key].split(",") if x]
+                        exp_rows = sess_out[key].split()[1:]
+                        if got != exp_rows:
+                            sig = "cli-" + key if sorted(got) != sorted(exp_rows) else "cli-" + key + ":row-order"
+                            bad.append((idx, f"C19:format_independent:{sig}",
+                                        f"`{l}`: the {key} file written by the command line differs from the in-process writer: "
+                                        f"{got[:3]} vs {exp_rows[:3]}"))
     return bad
 
 
